@@ -207,6 +207,8 @@ structure ADFacts (c : Cfg) (s : State) (a : Act) : Prop where
   reqLen : a.req.length ≤ 1
   reqS : a.req ≠ [] → a.st.S ≠ []
   emptyS : a.st.S = [] → a.req = []
+  parentPlain : a.refined = none → a.st.parent = s.parent
+  parentRefine : ∀ d, a.refined = some d → a.st.parent = s.parent ++ List.replicate c.branch d
 
 theorem wf_account {c : Cfg} {s : State} (r : List Req) (hw : WF c s) : WF c (account c s r) :=
   ⟨hw.nodupS, hw.nodupP, hw.disj, hw.useful, hw.bound, hw.noU⟩
@@ -218,7 +220,7 @@ theorem depthOf_congr {s s1 : State} (h : s1.depths = s.depths) (d : Nat) :
 /-- `evaluate_refine()` on the state `s1` reached by the decision phases from `s` -/
 theorem applyChoice_facts (c : Cfg) (s s1 : State) (e : Env) (hc : c.alg = .vogpAD)
     (hd : ∀ i ∈ s.S, i ∉ s.P) (hw1 : WF c s1) (T : Trans s.S s.P s1.S s1.P)
-    (hdep : s1.depths = s.depths) (hne : s1.S ≠ [])
+    (hdep : s1.depths = s.depths) (hpar : s1.parent = s.parent) (hne : s1.S ≠ [])
     (hlatch : ∀ d ∈ s.S, s.latch = false → depthOf s d ≠ c.maxDepth →
       (d ∈ s1.S ∨ d ∈ s1.P) → d ∈ s1.S) :
     ADFacts c s (applyChoice c s1 (choose c s1 e)) := by
@@ -228,11 +230,12 @@ theorem applyChoice_facts (c : Cfg) (s s1 : State) (e : Env) (hc : c.alg = .vogp
   cases hch : choose c s1 e with
   | idle =>
     exact ⟨wf_account _ hw1, fun _ => ⟨T, hdep⟩, (fun d h => by cases h),
-      (fun r hr => by cases hr), (by simp [applyChoice]), fun h => absurd rfl h, fun _ => rfl⟩
+      (fun r hr => by cases hr), (by simp [applyChoice]), fun h => absurd rfl h, fun _ => rfl,
+      fun _ => hpar, (fun d h => by cases h)⟩
   | sample d =>
     have hin := choose_sample hch
     refine ⟨wf_account _ hw1, fun _ => ⟨T, hdep⟩, (fun d h => by cases h), ?_, (by simp [applyChoice]),
-      fun _ => hne, fun h => absurd h hne⟩
+      fun _ => hne, fun h => absurd h hne, fun _ => hpar, (fun d h => by cases h)⟩
     intro r hr
     simp only [applyChoice, List.mem_singleton] at hr
     subst hr
@@ -249,7 +252,14 @@ theorem applyChoice_facts (c : Cfg) (s s1 : State) (e : Env) (hc : c.alg = .vogp
         s1.depths ++ List.replicate c.branch (depthOf s1 d + 1) := rfl
     have hwas : d ∈ s.S := T.sub.subset hdS
     refine ⟨⟨?_, ?_, ?_, ?_, ?_, ?_⟩, (fun h => by cases h), ?_, (fun r hr => by cases hr),
-      (by simp [applyChoice]), fun h => absurd rfl h, fun _ => rfl⟩
+      (by simp [applyChoice]), fun h => absurd rfl h, fun _ => rfl, (fun h => by cases h),
+      fun d' hd' => by
+        have : d' = d := by
+          simp only [applyChoice] at hd'
+          exact (Option.some.inj hd').symm
+        subst this
+        show s1.parent ++ List.replicate c.branch d' = _
+        rw [hpar]⟩
     · rw [hSt, List.nodup_append]
       refine ⟨hw1.nodupS.erase d, nodup_childIds c _, ?_⟩
       intro a ha b hb' hab
@@ -318,7 +328,14 @@ theorem applyChoice_facts (c : Cfg) (s s1 : State) (e : Env) (hc : c.alg = .vogp
         s1.depths ++ List.replicate c.branch (depthOf s1 d + 1) := rfl
     have hwas : d ∈ s.P ∨ d ∈ s.S := T.from_ d hdP
     refine ⟨⟨?_, ?_, ?_, ?_, ?_, ?_⟩, (fun h => by cases h), ?_, (fun r hr => by cases hr),
-      (by simp [applyChoice]), fun h => absurd rfl h, fun _ => rfl⟩
+      (by simp [applyChoice]), fun h => absurd rfl h, fun _ => rfl, (fun h => by cases h),
+      fun d' hd' => by
+        have : d' = d := by
+          simp only [applyChoice] at hd'
+          exact (Option.some.inj hd').symm
+        subst this
+        show s1.parent ++ List.replicate c.branch d' = _
+        rw [hpar]⟩
     · rw [hSt]; exact hw1.nodupS
     · rw [hPt, List.nodup_append]
       refine ⟨hw1.nodupP.erase d, nodup_childIds c _, ?_⟩
@@ -407,9 +424,10 @@ theorem adActive_facts (c : Cfg) (s : State) (e : Env) (hw : WF c s) (hc : c.alg
   simp only [adActive]
   split
   · exact ⟨wf_account _ hw1, fun _ => ⟨T, rfl⟩, (fun d h => by cases h), (fun r hr => by cases hr),
-      (by simp), fun h => absurd rfl h, fun _ => rfl⟩
+      (by simp), fun h => absurd rfl h, fun _ => rfl, fun _ => rfl,
+      (fun d h => by cases h)⟩
   · rename_i hne
-    refine applyChoice_facts c s _ e hc hw.disj hw1 T rfl ?_ ?_
+    refine applyChoice_facts c s _ e hc hw.disj hw1 T rfl rfl ?_ ?_
     · intro h
       apply hne
       show (vogpADRound e.isDom e.isCov e.pessDom (depthOf s) c.maxDepth s.latch s.S s.P).1.isEmpty = true
